@@ -257,6 +257,18 @@ def generate(tier, rng):
     for f in range(ARG_WORDS):
         yield {"k": "arg", "flags": f, "default": "none", "pre": [["arg", f, "list"], ["opt", f, False, "none"]]}
         yield {"k": "arg", "flags": f, "default": "list", "pre": [["arg", f, "none"]]}
+    # ---- the default set AFTER construction (`set_default`, with and without an argument): the same object as one
+    # constructed with that default
+    for f in range(OPT_WORDS):
+        if not f & 56:
+            continue        # an option without a value mode takes no default: set_default always raises (as documented)
+        for d in DEFAULTS + ("omitted",):
+            yield {"k": "opt", "flags": f, "short": f % 2 == 0, "default": "none", "then": d}
+    for f in range(ARG_WORDS):
+        if f & 1:
+            continue        # a required argument takes no default: set_default always raises (as documented)
+        for d in DEFAULTS + ("omitted",):
+            yield {"k": "arg", "flags": f, "default": "none", "then": d}
     yield {"k": "consts"}
     # ---- command options: every word over bits 0..3, short, alias lists
     alias_lists = [[], ["c"], ["-c"], ["cd"], ["-cd"], ["--cd"], ["c", "de", "-f", "-gh"], ["c", "1", "d"], ["ab", ""],
@@ -393,6 +405,12 @@ def run_impl(case):
         given = _mk_default(case["default"])
         try:
             o = Option("ab", "c" if case["short"] else None, case["flags"], default=given)
+            if "then" in case:
+                given = None if case["then"] == "omitted" else _mk_default(case["then"])
+                if case["then"] == "omitted":
+                    o.set_default()
+                else:
+                    o.set_default(given)
         except Exception as e:  # noqa: BLE001
             return {"out": "err", "exc": _exc(e)}
         return _option_obs(o, given)
@@ -407,6 +425,12 @@ def run_impl(case):
         given = _mk_default(case["default"])
         try:
             a = Argument("ab", case["flags"], default=given)
+            if "then" in case:
+                given = None if case["then"] == "omitted" else _mk_default(case["then"])
+                if case["then"] == "omitted":
+                    a.set_default()
+                else:
+                    a.set_default(given)
         except Exception as e:  # noqa: BLE001
             return {"out": "err", "exc": _exc(e)}
         return _argument_obs(a, given)
@@ -519,16 +543,22 @@ def _name_arg(v):
     return v  # None -> null, str -> string, anything else (an int) -> non-string
 
 
+def _then(case):
+    """the default the object must end up with: the one set after construction, if any (`omitted` = None)"""
+    d = case.get("then", case["default"])
+    return "none" if d == "omitted" else d
+
+
 def model_requests(case):
     k = case["k"]
     if k == "opt":
         return [{"m": "c07.option", "long": "ab", "short": "c" if case["short"] else None, "flags": case["flags"],
-                 "default": case["default"]}]
+                 "default": _then(case)}]
     if k == "misc_opt":
         return [{"m": "c07.option", "long": _name_arg(case["long"]), "short": _name_arg(case["short"]),
                  "flags": case["flags"], "default": "list" if case["default"] == "empty" else case["default"]}]
     if k == "arg":
-        return [{"m": "c07.argument", "name": "ab", "flags": case["flags"], "desc": None, "default": case["default"]}]
+        return [{"m": "c07.argument", "name": "ab", "flags": case["flags"], "desc": None, "default": _then(case)}]
     if k == "misc_arg":
         return [{"m": "c07.argument", "name": _name_arg(case["name"]), "flags": case["flags"],
                  "desc": _name_arg(case["desc"]),
@@ -857,9 +887,9 @@ def _declared(f, table):
 def oracle(case, obs):
     k = case["k"]
     if k == "opt":
-        return _oracle_opt(case, obs, case["short"], case["default"])
+        return _oracle_opt(case, obs, case["short"], _then(case))
     if k == "arg":
-        return _oracle_arg(case, obs, case["default"])
+        return _oracle_arg(case, obs, _then(case))
     if k == "misc_opt":
         long, short = case["long"], case["short"]
         names_ok = isinstance(long, str) and _wf_long(_strip(long, "--")) and (
